@@ -26,11 +26,35 @@ def corpus_programs():
     for name in sorted(os.listdir(base)):
         pth = os.path.join(base, name)
         if os.path.isdir(pth):
-            srcs = {f[:-4]: open(os.path.join(pth, f)).read() for f in sorted(os.listdir(pth)) if f.endswith(".sam")}
+            srcs = {}
+            for root, _, files in os.walk(pth):       # the module name is the relative path
+                for f in sorted(files):
+                    if f.endswith(".sam"):
+                        srcs[os.path.relpath(os.path.join(root, f), pth)[:-4].replace(os.sep, ".")] = open(os.path.join(root, f)).read()
             out.append({"origin": f"corpus:c12/{name}", "entry": "Main", "sources": srcs})
         elif name.endswith(".sam"):
             out.append({"origin": f"corpus:c12/{name[:-4]}", "entry": "Main", "sources": {"Main": open(pth).read()}})
     return out
+
+
+def canonical_blocks(rendered):
+    """the rendered diagnostics with the per-error blocks sorted by (module, line, column) — what stays of the text when
+    the order of the modules is ignored (open finding error-blocks-in-interning-order)"""
+    if not rendered:
+        return rendered
+    import re
+    parts = re.split(r"(?m)^(?=Error -+ )", rendered)
+    head, blocks = parts[0], parts[1:]
+    tail = ""
+    if blocks:
+        m = re.search(r"(?m)^Found \d+ errors?\.\s*$", blocks[-1])
+        if m:
+            blocks[-1], tail = blocks[-1][:m.start()], blocks[-1][m.start():]
+
+    def key(b):
+        m = re.match(r"Error -+ (\S+?):(\d+):(\d+)", b)
+        return (m.group(1), int(m.group(2)), int(m.group(3))) if m else ("", 0, 0)
+    return head + "".join(sorted(blocks, key=key)) + tail
 
 
 def broken_variants(programs, k):
@@ -92,9 +116,21 @@ def run(tier):
                                    env={"RAYON_NUM_THREADS": str(t)})
             runs.append(recs)
     rows = []
+    kf = next((k for k in known_findings(PID) if k.get("region") == "error-blocks-in-interning-order"), None)
+    excused = 0
     for i in range(len(programs)):
-        rows.append({"id": i, "origin": programs[i]["origin"], "front": runs[0][i].get("front"),
-                     "reps": [{k: v for k, v in r[i].items() if k in ("front", "rendered", "builds", "crash")} for r in runs]})
+        reps = [{k: v for k, v in r[i].items() if k in ("front", "rendered", "builds", "crash")} for r in runs]
+        if kf and len({r.get("rendered") for r in reps}) > 1 and len({canonical_blocks(r.get("rendered")) for r in reps}) == 1:
+            # known finding: the same error blocks, the modules in another order
+            excused += 1
+            for r in reps:
+                r["rendered"] = canonical_blocks(r.get("rendered"))
+        rows.append({"id": i, "origin": programs[i]["origin"], "front": runs[0][i].get("front"), "reps": reps})
+    if kf:
+        if excused:
+            report_known(PID, f"{kf['what']} [{excused} programs of this run differ only in that order]")
+        else:
+            log("[c12] the open finding error-blocks-in-interning-order did not show in this run")
     tr = os.path.join(d, "c12-trace.ndjson")
     write_ndjson(tr, rows)
     v = tlc("Observations", "ObsC12.cfg", env={"TRACE": tr}, deque=True, tag="c12obs", timeout=3000, xmx="8g")
